@@ -185,6 +185,19 @@ func (g *Gen) calleeFootprint(v *FnVC, callee *ssa.Function, spec *FuncSpec, c s
 		}
 		return out, true
 	}
+	reach := func(t types.Type) {
+		if t == nil {
+			return
+		}
+		for _, h := range refHeaps(t) {
+			if _, ok := v.heapSorts[h.name]; !ok {
+				v.heapSorts[h.name] = h.sort
+			}
+			if out[h.name] == "" {
+				out[h.name] = "alloc"
+			}
+		}
+	}
 	if len(spec.Modifies) > 0 {
 		// evaluate the modifies list on dummy arguments to learn the heap kinds
 		env := &Env{v: v, g: g, sf: g.specFileOf(spec), vars: map[string]Val{}, st: v.entry}
@@ -219,6 +232,7 @@ func (g *Gen) calleeFootprint(v *FnVC, callee *ssa.Function, spec *FuncSpec, c s
 				} else {
 					out[mt.heap] = "write"
 				}
+				reach(mt.elem)
 			}
 		}
 		allocs = true
@@ -228,21 +242,7 @@ func (g *Gen) calleeFootprint(v *FnVC, callee *ssa.Function, spec *FuncSpec, c s
 		for i := 0; i < res.Len(); i++ {
 			if hasRefs(res.At(i).Type()) {
 				allocs = true
-				for _, h := range refHeaps(res.At(i).Type()) {
-					if _, ok := v.heapSorts[h.name]; !ok {
-						v.heapSorts[h.name] = h.sort
-					}
-					if out[h.name] == "" {
-						out[h.name] = "alloc"
-					}
-				}
-			}
-		}
-	}
-	if allocs {
-		for h := range v.heapSorts {
-			if out[h] == "" {
-				out[h] = "alloc"
+				reach(res.At(i).Type())
 			}
 		}
 	}
@@ -349,6 +349,7 @@ func (g *Gen) GenFunc(fn *ssa.Function, spec *FuncSpec) (vc *FnVC, err error) {
 		loopInfo: map[*Loop]*loopState{}, blockCases: map[*ssa.BasicBlock][]*Term{}, paramConsts: map[string]bool{}, refHeaps: map[string]bool{}, usedSpecs: map[string]bool{}, ghostVars: map[string]types.Type{}, callOrd: map[string]int{}}
 	v.name = fn.Pkg.Pkg.Name() + "." + funcKey(fn)
 	v.pkg = fn.Pkg.Pkg
+	resetTermTables()
 	defer func() {
 		if r := recover(); r != nil {
 			switch e := r.(type) {
@@ -418,8 +419,12 @@ func (g *Gen) GenFunc(fn *ssa.Function, spec *FuncSpec) (vc *FnVC, err error) {
 			pn := "p_" + sanitize(p.Name())
 			t = MkSlice(v.declare(pn+".ref", SInt), v.declare(pn+".off", SInt), v.declare(pn+".len", SInt), v.declare(pn+".cap", SInt))
 			v.paramConsts[pn+".ref"] = true
+			belowBase[pn+".ref"] = true
 		} else {
 			t = v.declare("p_"+sanitize(p.Name()), s)
+			if _, isPtr := p.Type().Underlying().(*types.Pointer); isPtr {
+				belowBase[t.Name] = true
+			}
 		}
 		v.assume(True, v.typeInv(t, p.Type(), v.entry), "type")
 		val := Val{T: t, Typ: p.Type()}
@@ -438,6 +443,9 @@ func (g *Gen) GenFunc(fn *ssa.Function, spec *FuncSpec) (vc *FnVC, err error) {
 	}
 	// ghost variables
 	for _, gc := range spec.Ghost {
+		if strings.HasPrefix(strings.TrimSpace(gc.Text), "at ") {
+			continue // ghost update, applied where it says
+		}
 		v.declGhost(gc)
 	}
 	v.modAll = spec.ModAll
@@ -656,4 +664,84 @@ func (g *Gen) specFileByPkgName(name string) *SpecFile {
 		}
 	}
 	return nil
+}
+
+// ghostUpdates applies the contract's "ghost at <where>: lhs := rhs" clauses.
+// lhs: g(s) (whole ghost array, rhs "map z: e"), g(s)[i] (one element), or a
+// ghost value g(s). Ghost code only writes ghost heaps.
+func (v *FnVC) ghostUpdates(where string, env *Env, st *State, pos string) {
+	for _, gc := range v.spec.Ghost {
+		t := strings.TrimSpace(gc.Text)
+		if !strings.HasPrefix(t, "at "+where+":") {
+			continue
+		}
+		t = strings.TrimSpace(t[len("at "+where+":"):])
+		i := strings.Index(t, ":=")
+		if i < 0 {
+			specErr("%s: ghost update needs ':='", gc.Line)
+		}
+		lhsE, err := ParseExpr(strings.TrimSpace(t[:i]))
+		if err != nil {
+			specErr("%s: %v", gc.Line, err)
+		}
+		rhsT := strings.TrimSpace(t[i+2:])
+		env.st = st
+		switch {
+		case lhsE.Kind == "call" && env.ghostDecl(lhsE.Name) != nil && env.ghostDecl(lhsE.Name).Scalar:
+			gd := env.ghostDecl(lhsE.Name)
+			carrier := env.eval(lhsE.Args[0])
+			rhsE, err := ParseExpr(rhsT)
+			if err != nil {
+				specErr("%s: %v", gc.Line, err)
+			}
+			val := env.eval(rhsE)
+			hn := "HG_" + gd.Name
+			et := v.g.parseType(gd.Elem, v.pkg)
+			h := v.heap(st, hn, ArrSort(sortOf(et)))
+			v.frameCheck("cell", hn, SRef(carrier.T), v.fn.Pos())
+			st.heaps[hn] = v.define(hn, Store(h, SRef(carrier.T), val.T))
+		case lhsE.Kind == "call" && env.ghostDecl(lhsE.Name) != nil:
+			gd := env.ghostDecl(lhsE.Name)
+			carrier := env.eval(lhsE.Args[0])
+			if !strings.HasPrefix(rhsT, "map ") {
+				specErr("%s: whole-array ghost update needs 'map z: expr'", gc.Line)
+			}
+			c := strings.Index(rhsT, ":")
+			zname := strings.TrimSpace(rhsT[4:c])
+			body, err := ParseExpr(strings.TrimSpace(rhsT[c+1:]))
+			if err != nil {
+				specErr("%s: %v", gc.Line, err)
+			}
+			et := v.g.parseType(gd.Elem, v.pkg)
+			hn := "HG_" + gd.Name
+			h := v.heap(st, hn, HeapSort(sortOf(et)))
+			na := v.fresh("ghost_"+gd.Name, ArrSort(sortOf(et)))
+			freshCounter++
+			K := Var(fmt.Sprintf("gz?%d", freshCounter), SInt)
+			n := env.child()
+			n.vars[zname] = intVal(Sub(K, SOff(carrier.T)))
+			bv := n.eval(body)
+			v.assume(v.curGuard, Forall([]*Term{K}, Implies(And(Le(SOff(carrier.T), K), Lt(K, Add(SOff(carrier.T), SLen(carrier.T)))),
+				Eq(Select(na, K), bv.T)), []*Term{Select(na, K)}), "ghost-map")
+			v.frameCheck("array", hn, SRef(carrier.T), v.fn.Pos())
+			st.heaps[hn] = v.define(hn, Store(h, SRef(carrier.T), na))
+		case lhsE.Kind == "index" && lhsE.Args[0].Kind == "call" && env.ghostDecl(lhsE.Args[0].Name) != nil:
+			gd := env.ghostDecl(lhsE.Args[0].Name)
+			carrier := env.eval(lhsE.Args[0].Args[0])
+			idx := env.int(lhsE.Args[1])
+			rhsE, err := ParseExpr(rhsT)
+			if err != nil {
+				specErr("%s: %v", gc.Line, err)
+			}
+			val := env.eval(rhsE)
+			et := v.g.parseType(gd.Elem, v.pkg)
+			hn := "HG_" + gd.Name
+			h := v.heap(st, hn, HeapSort(sortOf(et)))
+			v.frameCheck("array", hn, SRef(carrier.T), v.fn.Pos())
+			inner := v.define("arr_"+hn, Store(Select(h, SRef(carrier.T)), Add(SOff(carrier.T), idx), v.define("gval", val.T)))
+			st.heaps[hn] = v.define(hn, Store(h, SRef(carrier.T), inner))
+		default:
+			specErr("%s: unsupported ghost update target %s", gc.Line, lhsE)
+		}
+	}
 }
